@@ -1,3 +1,4 @@
+pub mod alloc_count;
 pub mod corpus;
 pub mod gen;
 pub mod monitors;
